@@ -32,6 +32,7 @@ type Scenario struct {
 	Order string `json:"order"` // int | rev | str
 	U     int    `json:"u"`     // key universe size
 	Ops   []Op   `json:"ops"`
+	Ops2  []Op   `json:"ops2,omitempty"` // history of a SECOND list living in the same process, executed step-interleaved with the first
 	H     []int  `json:"h"`
 }
 
@@ -57,6 +58,9 @@ func gen(t *rapid.T) Scenario {
 	}
 	sc.Ops = rapid.SliceOfN(rapid.Custom(genOp), 1, maxOps).Draw(t, "ops")
 	sc.H = rapid.SliceOfNDistinct(rapid.IntRange(0, 1<<30), 3, 3, rapid.ID[int]).Draw(t, "h")
+	if rapid.IntRange(0, 3).Draw(t, "second") == 0 {
+		sc.Ops2 = rapid.SliceOfN(rapid.Custom(genOp), 1, 40).Draw(t, "ops2")
+	}
 	return sc
 }
 
@@ -95,6 +99,7 @@ type world[K comparable] struct {
 	show  func(K) string
 	model map[K]int
 	list  maplike.MapLike[K, int]
+	other func(step int) string // executes one step of an independent second list
 }
 
 func runOne[K comparable](sc Scenario, w *world[K]) string {
@@ -106,6 +111,12 @@ func runOne[K comparable](sc Scenario, w *world[K]) string {
 		shown[w.show(universe[i])] = universe[i]
 	}
 	for i, op := range sc.Ops {
+		if w.other != nil && i < len(sc.Ops2) {
+			// one step of the second list between two steps of the first
+			if m := w.other(i); m != "" {
+				return "second list in the same process: " + m
+			}
+		}
 		k := w.key(op.Key % sc.U)
 		at := fmt.Sprintf("step %d %s(%s)", i, op.K, w.show(k))
 		switch op.K {
@@ -183,6 +194,38 @@ func runOne[K comparable](sc Scenario, w *world[K]) string {
 	return ""
 }
 
+// secondList returns a stepper over an independent list with its own map model.
+func secondList(sc Scenario) func(int) string {
+	l2 := skiplist.New[int, int](ord.Int)
+	m2 := map[int]int{}
+	return func(i int) string {
+		op := sc.Ops2[i]
+		k := op.Key%7 + 100
+		switch op.K {
+		case "put":
+			l2.Put(k, op.Val+1000)
+			m2[k] = op.Val + 1000
+		case "get":
+			if got := l2.Get(k); got != m2[k] {
+				return fmt.Sprintf("step %d Get(%d) = %d, model %d", i, k, got, m2[k])
+			}
+		case "remove":
+			got := l2.Remove(k)
+			want := m2[k]
+			delete(m2, k)
+			if got != want {
+				return fmt.Sprintf("step %d Remove(%d) = %d, model %d", i, k, got, want)
+			}
+		}
+		for u := 100; u < 107; u++ {
+			if got := l2.Get(u); got != m2[u] {
+				return fmt.Sprintf("after step %d: Get(%d) = %d, model %d", i, u, got, m2[u])
+			}
+		}
+		return ""
+	}
+}
+
 func keysOf(ns []node) []string {
 	out := []string{}
 	for _, n := range ns {
@@ -217,15 +260,24 @@ func Run(t *testing.T, sc Scenario) string {
 			case "int":
 				w := &world[int]{cmp: ord.Int, key: func(i int) int { return i*7 - 20 }, show: strconv.Itoa, model: map[int]int{}}
 				w.list = skiplist.New[int, int](w.cmp)
+				if len(sc.Ops2) > 0 {
+					w.other = secondList(sc)
+				}
 				msg = runOne(sc, w)
 			case "rev":
 				w := &world[int]{cmp: ord.From[int](func(a, b int) ord.Ordering { return ord.Int.Compare(b, a) }),
 					key: func(i int) int { return i*7 - 20 }, show: strconv.Itoa, model: map[int]int{}}
 				w.list = skiplist.New[int, int](w.cmp)
+				if len(sc.Ops2) > 0 {
+					w.other = secondList(sc)
+				}
 				msg = runOne(sc, w)
 			default:
 				w := &world[string]{cmp: ord.String, key: func(i int) string { return strKeys[i%len(strKeys)] }, show: func(s string) string { return s }, model: map[string]int{}}
 				w.list = skiplist.New[string, int](w.cmp)
+				if len(sc.Ops2) > 0 {
+					w.other = secondList(sc)
+				}
 				msg = runOne(sc, w)
 			}
 		})
